@@ -188,7 +188,7 @@ def check_r3(fx, rep):
                 if tt['k'] == 'Call' and re.match(r'^cel_interpreter::(ExecutionError::\w+|functions::FunctionContext::error)$', F.norm_callee(tt) or ''):
                     rejects.append(F.norm_callee(tt).rsplit('::', 1)[-1])
                 for st in b.blocks[e]['stmts']:
-                    if st['k'] == 'Assign' and st['rv']['k'] == 'Aggregate' and st['rv'].get('adt') == 'cel_interpreter::ExecutionError':
+                    if st['k'] == 'Assign' and st['rv']['k'] == 'Aggregate' and st['rv'].get('adt') == 'cel_interpreter::ExecutionError' and st['rv'].get('variant') != 'UnsupportedKeyType':
                         rejects.append(st['rv'].get('variant'))
         rep.check(bool(keyres) and not rejects, 'R3', 'map-literal/no-entry-rejected', b.loc(), 'between evaluating a key and inserting the entry only evaluation errors and UnsupportedKeyType can leave the loop',
                   'the map literal loop raises %s between evaluating a key and inserting the entry: a literal with pairwise distinct keys (1 and \'1\') no longer holds exactly the entries written' % rejects)
@@ -325,6 +325,11 @@ def check_member(fx, rep):
                 if any(F.term_contains(x, lambda y: y[0] == 'call' and y[1] in ('std::collections::HashMap::get', 'cel_interpreter::objects::Map::get')) for x in ts):
                     some_t = [k for v, k in t['arms'] if int(v) == 1]
                     none_t = [k for v, k in t['arms'] if int(v) == 0]
+                    # `if let Some(..)` has one explicit arm; the other variant takes the otherwise edge
+                    if not none_t and some_t and t.get('otherwise') is not None:
+                        none_t = [t['otherwise']]
+                    if not some_t and none_t and t.get('otherwise') is not None:
+                        some_t = [t['otherwise']]
                     sw.append((bi, some_t, none_t))
     for fb in fbs:
         okk = False
